@@ -349,6 +349,87 @@ func C10(c *run.Ctx) {
 	}
 	c.Sample(map[string]interface{}{"registrations": len(regs), "transports": len(trs), "secret_relations": rels, "endpoints": endpoints})
 	c10UsedAssertions(c)
+	c10RetiredSecrets(c)
+}
+
+// c10RetiredSecrets: the set of secrets that authenticate a client is the CURRENT registration's (current secret plus the
+// rotated ones listed now). A secret that has been retired from the rotation list stops working at once, also when it had
+// been used successfully before on the same provider instance, whether the registration was edited in place or replaced.
+func c10RetiredSecrets(c *run.Ctx) {
+	if !c.Mine(4) && c.NShards > 4 {
+		return
+	}
+	eps := []string{"token", "revoke", "par", "device"}
+	for _, replace := range []bool{false, true} {
+		for _, kind := range []string{"plain", "oidc"} {
+			w := world.New(world.Opts{})
+			sp := world.ClientSpec{ID: "rot", Kind: kind, Secret: "current-secret-0", Rotated: []string{"rotated-secret-1", "rotated-secret-2"}, AuthMethod: "client_secret_basic", RedirectURIs: []string{"https://rot.example/cb"},
+				GrantTypes: world.AllGrants, ResponseTypes: world.AllResponseTypes, Scopes: []string{"fosite", "offline"}}
+			w.AddClient(sp)
+			victim := w.Token(url.Values{"grant_type": {"client_credentials"}, "scope": {"fosite"}}, world.Basic("rot", "current-secret-0")).S("access_token")
+			do := func(ep, secret string) *world.Out {
+				au := world.Basic("rot", secret)
+				switch ep {
+				case "token":
+					return w.Token(url.Values{"grant_type": {"client_credentials"}, "scope": {"fosite"}}, au)
+				case "revoke":
+					return w.Revoke(url.Values{"token": {victim}}, au)
+				case "par":
+					return w.PAR(url.Values{"response_type": {"code"}, "scope": {"fosite"}, "state": {"state-0123456789"}, "redirect_uri": {"https://rot.example/cb"}}, au)
+				}
+				return w.Device(url.Values{"scope": {"fosite"}, "client_id": {"rot"}}, au)
+			}
+			var hist []string
+			// every secret of the registration is used successfully once
+			for _, sec := range []string{"rotated-secret-1", "rotated-secret-2", "current-secret-0", "rotated-secret-1"} {
+				out := do("token", sec)
+				hist = append(hist, fmt.Sprintf("token with %s => %s", sec, world.ErrDetail(out.Err)))
+				if out.Err == nil {
+					c.Count("c10_processed", 1)
+				}
+			}
+			// retire rotated-secret-1 (and make the old current secret a rotated one, with a new current secret)
+			nsp := sp
+			nsp.Secret, nsp.Rotated = "current-secret-3", []string{"current-secret-0", "rotated-secret-2"}
+			nc := nsp.Build()
+			if replace {
+				w.Mem.Clients["rot"] = nc
+			} else {
+				dc, ndc := world.DC(w.Client("rot")), world.DC(nc)
+				dc.Secret, dc.RotatedSecrets = ndc.Secret, ndc.RotatedSecrets
+			}
+			hist = append(hist, fmt.Sprintf("registration updated (replaced=%v): current-secret-3, rotated [current-secret-0 rotated-secret-2]; rotated-secret-1 retired", replace))
+			for _, ep := range eps {
+				for _, sec := range []string{"rotated-secret-1", "current-secret-3", "current-secret-0", "rotated-secret-2", "rotated-secret-1"} {
+					retired := sec == "rotated-secret-1"
+					if ep == "revoke" && !retired {
+						continue // keep the victim token alive
+					}
+					before := w.Store.Digest()
+					out := do(ep, sec)
+					c.Case(fmt.Sprintf("retired-secret kind=%s replaced=%v endpoint=%s secret-retired=%v processed=%v err=%s", kind, replace, ep, retired, out.Err == nil, out.ErrName))
+					c.Count("c10_retired_secret_probes", 1)
+					h := append(append([]string(nil), hist...), fmt.Sprintf("%s with %s => %s", ep, sec, world.ErrDetail(out.Err)))
+					if retired {
+						c.Count("c10_rejected", 1)
+						if out.Err == nil {
+							c.Violate(run.Violation{Kind: "unauthenticated-request-processed", Key: "unauthenticated-request-processed retired-rotated-secret endpoint=" + ep,
+								Detail: "a secret that is no longer in the client's registration authenticated a request", History: h})
+						} else if d := world.DigestDiff(before, w.Store.Digest()); len(d) > 0 {
+							c.Violate(run.Violation{Kind: "rejected-request-changed-state", Key: "rejected-request-changed-state endpoint=" + ep + " (retired-rotated-secret)", Detail: fmt.Sprint(d), History: h})
+						}
+					} else if out.Err == nil {
+						c.Count("c10_processed", 1)
+					} else {
+						c.Count("c10_authenticated_but_refused:retired-probe:"+ep+":"+out.ErrName, 1)
+					}
+				}
+			}
+			if !w.IntrospectAPI(victim, fosite.AccessToken).Active {
+				c.Violate(run.Violation{Kind: "rejected-request-changed-state", Key: "rejected-request-changed-state retired-rotated-secret revoked a token", Detail: "the token named in the rejected revocation requests is no longer active", History: hist})
+			}
+		}
+	}
 }
 
 // c10UsedAssertions: for a private_key_jwt client a client assertion is a one-time proof. Once it has been accepted at any
